@@ -69,6 +69,15 @@ class Data(B):  # message bytes: every length is in the domain (the sizes only s
         return True
 
 
+class Mult(B):  # byte parameter whose length must be a positive multiple of the cipher block size
+    def __init__(self, bs):
+        self.bs = bs
+        self.sizes = tuple(bs * k for k in range(1, 6))
+
+    def ok(self, v):
+        return len(v) > 0 and len(v) % self.bs == 0
+
+
 class Fixed:
     def __init__(self, *vals):
         self.vals = vals
@@ -121,6 +130,14 @@ FUNCS = {
     "mac.generate_cbc_mac": ([B((8, 16, 24)), Data(tuple(range(0, 41))), PADDING, Fixed(None, 4, 8), Fixed(None, A.DES)], False, False),
     "mac.generate_cbc_mac#aes": ([B((16, 24, 32)), Data(tuple(range(0, 41))), PADDING, Fixed(None, 4, 16), Fixed(A.AES)], False, False),
     "mac.generate_retail_mac": ([B((8, 16, 24)), B((8, 16, 24)), Data(tuple(range(0, 41))), PADDING, Fixed(None, 4, 8)], False, False),
+    "des.encrypt_tdes_ecb": ([B((8, 16, 24)), Mult(8)], False, False),
+    "des.decrypt_tdes_ecb": ([B((8, 16, 24)), Mult(8)], False, False),
+    "des.encrypt_tdes_cbc": ([B((8, 16, 24)), B((8,)), Mult(8)], False, False),
+    "des.decrypt_tdes_cbc": ([B((8, 16, 24)), B((8,)), Mult(8)], False, False),
+    "aes.encrypt_aes_ecb": ([B((16, 24, 32)), Mult(16)], False, False),
+    "aes.decrypt_aes_ecb": ([B((16, 24, 32)), Mult(16)], False, False),
+    "aes.encrypt_aes_cbc": ([B((16, 24, 32)), B((16,)), Mult(16)], False, False),
+    "aes.decrypt_aes_cbc": ([B((16, 24, 32)), B((16,)), Mult(16)], False, False),
     "des.apply_key_variant": ([B((8, 16, 24)), VARIANT], False, False),
     "des.generate_kcv": ([B((8, 16, 24)), Fixed(2, 3)], False, False),
 }
